@@ -53,6 +53,9 @@ pub struct ProcResult {
     pub stderr: Vec<u8>,
     pub timed_out: bool,
     pub wall: Duration,
+    /// the process was killed because it had become quiescent: every thread asleep and no CPU time consumed
+    /// over several seconds although it had not exited (see `run_cmd_watch`)
+    pub quiescent: bool,
 }
 
 impl ProcResult {
@@ -69,8 +72,40 @@ impl ProcResult {
 
 const OUT_CAP: usize = 4 << 20;
 
+/// (all threads sleeping, total utime+stime ticks) of a process, from /proc.
+fn proc_activity(pid: i32) -> Option<(bool, u64)> {
+    let mut all_sleeping = true;
+    let mut ticks = 0u64;
+    let mut n = 0;
+    for e in std::fs::read_dir(format!("/proc/{pid}/task")).ok()? {
+        let e = e.ok()?;
+        let st = std::fs::read_to_string(e.path().join("stat")).ok()?;
+        let rest = &st[st.rfind(')')? + 1..];
+        let f: Vec<&str> = rest.split_whitespace().collect();
+        // f[0] = state, f[11] = utime, f[12] = stime (fields 3, 14, 15 of proc(5))
+        if f.len() < 13 {
+            return None;
+        }
+        if f[0] != "S" {
+            all_sleeping = false;
+        }
+        ticks += f[11].parse::<u64>().ok()? + f[12].parse::<u64>().ok()?;
+        n += 1;
+    }
+    if n == 0 { None } else { Some((all_sleeping, ticks)) }
+}
+
 /// Run a command with a timeout, capturing stdout/stderr (capped).
-pub fn run_cmd(mut cmd: Command, timeout: Duration) -> ProcResult {
+pub fn run_cmd(cmd: Command, timeout: Duration) -> ProcResult {
+    run_cmd_watch(cmd, timeout, None)
+}
+
+/// Like `run_cmd`; with `quiescent = Some(d)` the process is additionally sampled once per second and
+/// killed (result.quiescent = true) when, for `d` in a row, every one of its threads is in interruptible
+/// sleep and its accumulated CPU time has not advanced by a single tick. For a program that neither reads
+/// input nor sleeps this means no thread can ever run again (deadlock / lost wake-up) — unlike a plain
+/// timeout it is independent of machine load: a thread that merely waits for a CPU is in state R.
+pub fn run_cmd_watch(mut cmd: Command, timeout: Duration, quiescent: Option<Duration>) -> ProcResult {
     let t0 = Instant::now();
     cmd.stdin(Stdio::null()).stdout(Stdio::piped()).stderr(Stdio::piped());
     // own process group so that a timeout kills grandchildren (gcc, compiler binaries) too
@@ -121,12 +156,31 @@ pub fn run_cmd(mut cmd: Command, timeout: Duration) -> ProcResult {
     });
     let pid = child.id() as i32;
     let mut timed_out = false;
+    let mut was_quiescent = false;
+    let mut last_sample = Instant::now();
+    let mut idle_since: Option<(Instant, u64)> = None;
     let status = loop {
         match child.try_wait() {
             Ok(Some(st)) => break Some(st),
             Ok(None) => {
-                if t0.elapsed() > timeout {
-                    timed_out = true;
+                if let Some(qd) = quiescent {
+                    if last_sample.elapsed() >= Duration::from_millis(500) {
+                        last_sample = Instant::now();
+                        match proc_activity(pid) {
+                            Some((true, ticks)) => match idle_since {
+                                Some((since, t)) if t == ticks => {
+                                    if since.elapsed() >= qd {
+                                        was_quiescent = true;
+                                    }
+                                }
+                                _ => idle_since = Some((Instant::now(), ticks)),
+                            },
+                            _ => idle_since = None,
+                        }
+                    }
+                }
+                if was_quiescent || t0.elapsed() > timeout {
+                    timed_out = !was_quiescent;
                     unsafe {
                         libc::kill(-pid, libc::SIGKILL);
                         libc::kill(pid, libc::SIGKILL);
@@ -148,6 +202,7 @@ pub fn run_cmd(mut cmd: Command, timeout: Duration) -> ProcResult {
         stderr,
         timed_out,
         wall: t0.elapsed(),
+        quiescent: was_quiescent,
     }
 }
 
@@ -202,6 +257,21 @@ pub fn compile(tools: &Tools, src: &Path, out: &Path, backend: Backend, opts: &C
     run_cmd(cmd, timeout)
 }
 
+/// Run an executable with extra environment variables and quiescence (deadlock) detection.
+pub fn run_exe_watch(exe: &Path, dora_flags: &str, envs: &[(&str, String)], timeout: Duration, quiescent: Duration, cwd: &Path) -> ProcResult {
+    let mut cmd = Command::new(exe);
+    if dora_flags.is_empty() {
+        cmd.env_remove("DORA_FLAGS");
+    } else {
+        cmd.env("DORA_FLAGS", dora_flags);
+    }
+    for (k, v) in envs {
+        cmd.env(k, v);
+    }
+    cmd.current_dir(cwd);
+    run_cmd_watch(cmd, timeout, Some(quiescent))
+}
+
 pub fn run_exe(exe: &Path, dora_flags: &str, timeout: Duration, cwd: &Path) -> ProcResult {
     let mut cmd = Command::new(exe);
     if dora_flags.is_empty() {
@@ -226,6 +296,8 @@ pub enum Ending {
     /// a Rust panic inside the runtime
     RuntimePanic(String),
     Timeout,
+    /// killed because no thread of the process could ever run again (see `run_cmd_watch`)
+    Quiescent,
     /// an exit status with no matching message
     Unexplained(i32, String),
 }
@@ -244,6 +316,9 @@ pub const TRAPS: &[(i32, &str)] = &[
 ];
 
 pub fn classify(r: &ProcResult) -> Ending {
+    if r.quiescent {
+        return Ending::Quiescent;
+    }
     if r.timed_out {
         return Ending::Timeout;
     }
